@@ -14,7 +14,7 @@ from vlib import clist, cpair, log
 
 PID = "C17"
 PROPS = "C17_Props.v"
-TARGETS = ["C17_Props.vo", "C17_Check.vo", "C17_CheckLex.vo", "C17_CheckBuild.vo", "C17_CheckMerge.vo"]
+TARGETS = ["C17_Props.vo", "C17_Check.vo", "C17_CheckLex.vo", "C17_CheckBuild.vo", "C17_CheckMerge.vo", "C17_CheckCap.vo"]
 HARNESS = ["control/common_test.go", "control/c17_test.go", "control/c17lex_test.go", "control/c17build_test.go"]
 TEST = "TestVerifC17"
 
@@ -249,6 +249,38 @@ def translate_schema():
         if early:
             shape_issue = "ParamParser has %d success return(s) before its 'Check required' loop; the model has none" % early
     return text, {"structs": structs, "tops": tops, "shape_issue": shape_issue}
+
+
+GUARD_SITES = [("control/routing_matcher_builder.go", "BuildUserspace"), ("component/dns/request_routing.go", "Build"),
+               ("component/dns/response_routing.go", "Build")]
+
+
+def capacity_guard_shape():
+    """where the size guard sits and what it counts: in each builder function, `len(b.rules) > consts.MaxMatchSetLen`
+    before the first NewAhocorasickSlimtrie/AddSet; no `> consts.MaxMatchSetLen` comparison of anything else anywhere
+    in these files.  -> (facts, issue or None)"""
+    facts, issues = {}, []
+    for rel, fn in GUARD_SITES:
+        src = open(os.path.join(vlib.REPO, rel)).read()
+        m = re.search(r"^func \([^)]*\) %s\(.*?^\}" % fn, src, re.S | re.M)
+        if not m:
+            issues.append("%s: func %s not found" % (rel, fn))
+            continue
+        body = m.group(0)
+        g = re.search(r"if\s+(.+?)\s*>\s*consts\.MaxMatchSetLen\s*\{", body)
+        first_use = re.search(r"NewAhocorasickSlimtrie|\.AddSet\(", body)
+        facts["%s:%s" % (rel, fn)] = g.group(1) if g else None
+        if not g:
+            issues.append("%s: %s has no size guard" % (rel, fn))
+        elif g.group(1).strip() != "len(b.rules)":
+            issues.append("%s: %s guards on %s, not on the lowered len(b.rules)" % (rel, fn, g.group(1)))
+        elif first_use and g.start() > first_use.start():
+            issues.append("%s: %s indexes match sets before its size guard" % (rel, fn))
+        for mm in re.finditer(r"if\s+([^\n{]+?)\s*>\s*consts\.MaxMatchSetLen\s*\{", src):
+            lhs = mm.group(1).split(";")[-1].strip()
+            if lhs != "len(b.rules)":
+                issues.append("%s: a size guard counts `%s` instead of the lowered len(b.rules)" % (rel, lhs))
+    return facts, ("; ".join(issues) if issues else None)
 
 
 LEXER_SHAPE_SHA = "0f7da07ac2435828817fbca435ae8119c05e60db8470bd49cf805c1e9ac25c28"
@@ -942,6 +974,77 @@ def gen_cap_cases(rng, limit, thorough):
     return cases
 
 
+KEYSETS = {"d3": ["suffix", "keyword", "full"], "d2": ["suffix", "keyword"], "d2rep": ["suffix", "keyword", "suffix"], "d1": ["suffix"], "plain": [""]}
+
+
+def cap2_render(stage, blocks):
+    """blocks: list of (repetitions, [condition kinds]) -> (text, coq blocks term). One rule per repetition, its
+    conditions joined by '&&'; outbounds alternate so that the optimizer does not merge neighbours."""
+    dom, plain = ("domain", "port") if stage == "routing" else ("qname", "qtype")
+    outs = {"routing": ("direct", "block"), "request": ("asis", "reject"), "response": ("accept", "reject")}[stage]
+    rules, i = [], 0
+    for reps, kinds in blocks:
+        for _ in range(reps):
+            conds = []
+            for kd in kinds:
+                i += 1
+                if kd == "plain":
+                    conds.append("%s(%d)" % (plain, 1 + i % (60000 if stage == "routing" else 250)))
+                else:
+                    conds.append("%s(%s)" % (dom, ", ".join("%s: %s%d.example" % (k, k[0], i * 10 + j) for j, k in enumerate(KEYSETS[kd]))))
+            rules.append("%s -> %s" % (" && ".join(conds), outs[len(rules) % 2]))
+    body = "\n".join(rules)
+    if stage == "routing":
+        text = "global {}\nrouting {\n%s\nfallback: direct\n}\n" % body
+    else:
+        other = "response { fallback: accept }" if stage == "request" else "request { fallback: asis }"
+        text = ("global {}\nrouting { fallback: direct }\ndns { upstream { u: 'udp://1.1.1.1:53' } routing { %s {\n%s\nfallback: %s }\n%s } }\n"
+                % (stage, body, outs[0], other))
+    keyid = {"": 0, "suffix": 1, "keyword": 2, "full": 3}
+
+    def ccond(kd):
+        return "(Cond %s %s)" % (vlib.cbool(kd != "plain"), clist([str(keyid[k]) for k in KEYSETS[kd]]))
+    term = clist(["(%d%%nat, %s)" % (reps, clist([ccond(k) for k in kinds])) for reps, kinds in blocks])
+    nsets = 1 + sum(reps * sum(len(set(KEYSETS[k])) for k in kinds) for reps, kinds in blocks)
+    nconds = sum(reps * len(kinds) for reps, kinds in blocks)
+    return text, term, nsets, nconds
+
+
+def gen_cap2_cases(limit, thorough):
+    """programs whose match-set count differs from their condition count, around and beyond the limit"""
+    L = limit
+    a = (L - 4) // 3                       # 340 for 1024
+    fams = [
+        ("routing", "d3-only-at", [((L - 1) // 3, ["d3"])]),                        # 1 + 3*341 = 1024
+        ("routing", "d3-only-over", [((L - 1) // 3 + 1, ["d3"])]),                  # 1027
+        ("routing", "plain-then-d3-below", [(L - 2 - 3 * a, ["plain"]), (a, ["d3"])]),      # 1023
+        ("routing", "plain-then-d3-at", [(L - 1 - 3 * a, ["plain"]), (a, ["d3"])]),         # 1024
+        ("routing", "plain-then-d3-over1", [(L - 3 * a, ["plain"]), (a, ["d3"])]),          # 1025, last domain set at 1023
+        ("routing", "plain-then-d3-over2", [(L + 1 - 3 * a, ["plain"]), (a, ["d3"])]),      # 1026, last domain set at 1024
+        ("routing", "d3-wide", [(400, ["d3"])]),                                    # 401 conditions, 1201 sets
+        ("routing", "d3-then-plain-tail", [(300, ["d3"]), (200, ["plain"])]),       # 1101 sets, no domain beyond the limit
+        ("routing", "repeated-key-below", [((L - 2) // 2, ["d2rep"])]),             # 1 + 2*511 = 1023
+        ("routing", "repeated-key-over", [((L - 2) // 2 + 1, ["d2rep"])]),          # 1025
+        ("routing", "chains-below", [((L - 4) // 4, ["plain", "d3"])]),             # 1 + 4*255 = 1021
+        ("routing", "chains-over", [((L - 4) // 4 + 1, ["plain", "d3"])]),          # 1025
+        ("request", "d2-at", [(1, ["plain"]), ((L - 2) // 2, ["d2"])]),             # 1 + 1 + 1022 = 1024
+        ("request", "d2-over", [(3, ["plain"]), ((L - 2) // 2, ["d2"])]),           # 1026, last domain set at 1024
+        ("request", "d2-then-plain-tail", [(400, ["d2"]), (300, ["plain"])]),       # 1101
+        ("response", "d2-at", [(1, ["plain"]), ((L - 2) // 2, ["d2"])]),
+        ("response", "d2-over", [(3, ["plain"]), ((L - 2) // 2, ["d2"])]),
+        ("response", "d2-then-plain-tail", [(400, ["d2"]), (300, ["plain"])]),
+    ]
+    if thorough:
+        fams += [("routing", "d3-double", [(700, ["d3"])]), ("request", "d2-wide", [(900, ["d2"])]), ("routing", "d1-at", [(L - 1, ["d1"])]),
+                 ("routing", "d1-over", [(L, ["d1"])])]
+    cases = []
+    for stage, name, blocks in fams:
+        text, term, nsets, nconds = cap2_render(stage, blocks)
+        cases.append({"kind": "cap2", "stage": "routing" if stage == "routing" else "dns", "dns_side": stage, "name": name, "blocks": blocks,
+                      "text": text, "term": term, "nsets": nsets, "nconds": nconds})
+    return cases
+
+
 RISKY_SNIPPETS = ["domain(ext: nocolon) -> direct", "domain(ext: 'f:tag') -> direct", "domain(geosite: cn) -> direct", "dip(geoip: private) -> direct",
                   "domain(regex: '(') -> direct", "port(70000) -> direct", "pname('') -> direct", "mac('zz') -> direct",
                   "dip(1.2.3.4/33) -> direct", "l4proto(icmp) -> direct", "domain(full: 'a b') -> direct", "unknownfn(x) -> direct",
@@ -1370,7 +1473,7 @@ def run_isolated(sc, binary, reqs, tag):
     return run_isolated(sc, binary, reqs[:mid], tag + "a") + run_isolated(sc, binary, reqs[mid:], tag + "b")
 
 
-HEADER = ("From Coq Require Import List NArith Bool String Ascii.\nFrom Dae Require Import C17_Spec C17_Model C17_Paths C17_Check C17_CheckLex C17_CheckMerge.\n"
+HEADER = ("From Coq Require Import List NArith Bool String Ascii.\nFrom Dae Require Import C17_Spec C17_Model C17_Paths C17_Capacity C17_Check C17_CheckLex C17_CheckMerge C17_CheckCap.\n"
           "Import ListNotations.\nOpen Scope string_scope.\nOpen Scope N_scope.\nOpen Scope list_scope.\n")
 
 
@@ -1554,6 +1657,10 @@ def main(argv):
                           % (facts["lexer_shape_sha256"][:12], facts["parser_atn_sha256"][:12]))
         schema_text, schema = translate_schema()
         vlib.write_if_changed(os.path.join(vlib.COQ, "gen", "Extracted_C17_Schema.v"), schema_text)
+        gfacts, gissue = capacity_guard_shape()
+        facts["capacity_guards"] = gfacts
+        if gissue:
+            tie_broken = tie_broken or ("capacity guard: " + gissue)
         if schema.get("shape_issue"):
             tie_broken = tie_broken or ("shape of config/parser.go: " + schema["shape_issue"])
     except AnchorMoved as e:
@@ -1567,7 +1674,7 @@ def main(argv):
     cov = {"obligations": pinfo["obligations"], "discharged": pinfo["discharged"],
            "checker_cmd": "cd /verif/coq && coq_makefile -f _CoqProject -o Makefile && make -j16 " + " ".join(TARGETS) + " && coqc -Q . Dae C17_Props.v (Print Assumptions captured)",
            "theorems": pinfo.get("theorems", []), "print_assumptions": pinfo.get("assumptions", []),
-           "translated_from_source": {k: facts.get(k) for k in ("sets", "max_match_set_len", "lexer_shape_sha256", "parser_atn_sha256")},
+           "translated_from_source": {k: facts.get(k) for k in ("sets", "max_match_set_len", "lexer_shape_sha256", "parser_atn_sha256", "capacity_guards")},
            "trusted_base": vlib.TRUSTED_BASE_COMMON + [
                "the reading of ANTLR 4's lexer ATN simulator (longest match, first rule on ties, non-greedy loops) and of the 19 grammar rules as an LL(2) recursive descent; tied to the generated lexer/parser only by the correspondence run",
                "python virtual directory tree answering what the operating system answers for a path (symbolic links followed) - the os/listing tables of the merge cases; Glob, Join/Clean, EnsureFileInSubDir and readEntry's checks are Coq models (C17_Paths.v) compared with filepath.Glob's real answers and the merger's real behaviour",
@@ -1745,6 +1852,32 @@ def main(argv):
         def creq(c):
             return {"op": "compile", "text": b64(c["text"]), "stage": c["stage"]}
         cres = run_isolated(sc, binary, [creq(c) for c in cap_cases], "cap")
+        cap2 = gen_cap2_cases(limit, thorough)
+        c2res = run_isolated(sc, binary, [creq(c) for c in cap2], "cap2")
+        cap2_model_fail = []
+        c2terms = []
+        for c, r in zip(cap2, c2res):
+            cls = 2 if r.get("panic") else 0 if r.get("ok") else 1
+            c["class"], c["err"] = cls, r.get("err", "")
+            names = cls == 1 and ("exceeds the limit %d" % limit) in c["err"]
+            c2terms.append("(Build_cap2_case %s %d %s)" % (c["term"], cls, vlib.cbool(names)))
+        per2, c2sigs, err = eval_cases("C17_cases_cap2", "cap2_case", c2terms, "check_cap2", "cap2_signature")
+        if err:
+            tie_broken = tie_broken or err
+            per2, c2sigs = [[] for _ in cap2], []
+        stats["lowered_capacity_cases"] = [{"stage": c["dns_side"], "name": c["name"], "conditions": c["nconds"], "match_sets": c["nsets"], "impl": ["ok", "error", "crash"][c["class"]]} for c in cap2]
+        for (c, r), e in zip(zip(cap2, c2res), per2):
+            if 9 in e or 2 in e:
+                what = ("crashes" if 9 in e else "is accepted" if c["class"] == 0 else "is answered with an error that does not name the limit" if c["nsets"] > limit else "is refused as oversized although within the limit")
+                out.violation("capacity_lowered_" + c["dns_side"],
+                              {"op": "compile", "stage": c["stage"], "program": c["dns_side"], "family": c["name"], "blocks": c["blocks"], "conditions": c["nconds"], "lowered_match_sets": c["nsets"],
+                               "limit": limit, "text_b64": b64(c["text"]), "result": r, "codes": e,
+                               "text_recipe": "one rule per repetition; d3 = domain/qname(suffix:, keyword:, full:), d2 = (suffix:, keyword:), d2rep = (suffix:, keyword:, suffix:), plain = port/qtype(n); outbounds alternate",
+                               "how": "Parse -> config.New -> optimizers -> builder: a program is oversized when its LOWERED match sets (one per condition per distinct key, plus the fallback) exceed the limit"},
+                              "a %s program of %d conditions lowering to %d match sets (limit %d) %s" % (c["dns_side"], c["nconds"], c["nsets"], limit, what),
+                              matchers=["C17/capacity-lowered/%s/%s" % (c["dns_side"], c["name"])])
+                break
+        cap2_model_fail = [c["name"] for c, e in zip(cap2, per2) if e and not (9 in e or 2 in e)]
         log("capacity cases done")
         # risky programs: one batch; if the process dies, every case in its own child
         rres, rerr = run_requests(sc, binary, [creq(c) for c in risky_cases], "risky", timeout=300)
@@ -1805,9 +1938,9 @@ def main(argv):
             out.violation(tag, payload, desc, matchers=[key])
 
         # ---- tie classification
-        n_eval = len(pcases) + len(mcases) + len(ccases) + len(BUILD_TEXTS) + stats.get("build_stream_cases", 0)
-        model_fail_total = len(parse_model_fail) + len(merge_fail_model) + len(cap_model_fail) + len(build_model_fail)
-        if (parse_model_fail or merge_fail_model or cap_model_fail or build_model_fail or tie_broken or not proof_ok) and not out.violations:
+        n_eval = len(pcases) + len(mcases) + len(ccases) + len(cap2) + len(BUILD_TEXTS) + stats.get("build_stream_cases", 0)
+        model_fail_total = len(parse_model_fail) + len(merge_fail_model) + len(cap_model_fail) + len(build_model_fail) + len(cap2_model_fail)
+        if (parse_model_fail or merge_fail_model or cap_model_fail or cap2_model_fail or build_model_fail or tie_broken or not proof_ok) and not out.violations:
             what = {}
             if not proof_ok:
                 what["proof"] = pinfo["failed"]
@@ -1820,6 +1953,8 @@ def main(argv):
                 what["merge_case"] = {"request": merge_request(mcases[merge_fail_model[0]])}
             if build_model_fail:
                 what["build_case"] = build_model_fail[0]
+            if cap2_model_fail:
+                what["lowered_capacity_case"] = cap2_model_fail[0]
             if cap_model_fail:
                 what["capacity_case"] = {k: ccases[cap_model_fail[0]][k] for k in ("stage", "total", "domains", "class")}
             what["searched"] = "%d cases with no impl<>spec disagreement" % n_eval
